@@ -101,6 +101,20 @@ func c07AfterLastToken() []string {
 	add("leaf l { type decimal64; }")
 	add("leaf l { type identityref; }")
 	add("leaf l { type leafref; }")
+	// arguments that the parser takes apart itself (names of a key or unique, parts of a range or length,
+	// steps of a schema node identifier), with every kind of blank and near-blank between the parts
+	for _, sep := range []string{" ", "  ", "\t", "\n", "\r", "\r\n", "\r\n   ", " \r", "\r ", "\r\r", "\n\r", "\f", "\v", "\u00a0", "\u2028", "\x00", ""} {
+		q := func(a string) string { return "'" + a + "'" }
+		add("list li { key " + q("a"+sep+"b") + "; leaf a { type string; } leaf b { type string; } }")
+		add("list li { key " + q(sep+"a"+sep) + "; leaf a { type string; } }")
+		add("list li { key a; leaf a { type string; } leaf b { type string; } leaf c { type string; } unique " + q("b"+sep+"c") + "; }")
+		add("list li { key a; leaf a { type string; } container c { leaf d { type string; } } unique " + q("c/d"+sep) + "; }")
+		add("leaf l { type int8 { range " + q("1"+sep+".."+sep+"2"+sep+"|"+sep+"5") + "; } }")
+		add("leaf l { type string { length " + q("1"+sep+"|"+sep+"3..4") + "; } }")
+		add("container c { leaf x { type string; } } augment " + q("/m:c"+sep) + " { leaf y { type string; } }")
+		add("grouping g { container c { leaf x { type string; } } } container u { uses g { refine " + q("c"+sep+"/"+sep+"x") + " { default d; } } }")
+		add("leaf l { type string; if-feature " + q("f"+sep) + "; } feature f;")
+	}
 	return out
 }
 
